@@ -1373,6 +1373,18 @@ func (m *manager) WithdrawAccount(ctx context.Context,
 		return nil, nil, err
 	}
 
+	// None of the withdrawal outputs may pay to the script of the new
+	// account output itself. Otherwise the transaction contains the same
+	// script more than once and the re-created account output (and with it
+	// the new outpoint of the account) cannot be told apart from them.
+	for _, out := range outputs {
+		if bytes.Equal(out.PkScript, newAccountOutput.PkScript) {
+			return nil, nil, fmt.Errorf("withdrawal output pays to "+
+				"the account's own output script %x",
+				out.PkScript)
+		}
+	}
+
 	allOutputs := []*wire.TxOut{newAccountOutput}
 	allOutputs = append(allOutputs, outputs...)
 	packet, err := m.createSpendTx(account, allOutputs)
